@@ -71,6 +71,22 @@ Theorem C19_split_limit : forall str limit big, 1 <= limit -> N.of_nat (length s
 Proof. exact final_split_limit. Qed.
 Print Assumptions C19_split_limit.
 
+(** the two degenerate arguments: limit 0 returns nothing; an empty separator cuts between all characters, and the
+    limit is honoured exactly as for the other separators (the one-character pieces beyond limit - 1 stay joined) *)
+Theorem C19_split_degenerate : forall sepc seps str limit,
+  split_char sepc str 0 = [] /\ split_str seps str 0 = [] /\
+  (1 <= limit -> split_str [] str limit = limit_spec (join []) (map (fun c => [c]) str) (N.to_nat limit) /\
+                 join [] (split_str [] str limit) = str).
+Proof. exact final_split_degenerate. Qed.
+Print Assumptions C19_split_degenerate.
+
+(** the empty-separator branch as shipped in 704fd0b ignores the limit *)
+Theorem C19_split_empty_separator_shipped_refuted :
+  split_str_empty_shipped [97; 98; 99; 100; 101; 102] 2 = [[97]; [98]; [99]; [100]; [101]; [102]] /\
+  split_str [] [97; 98; 99; 100; 101; 102] 2 = [[97]; [98; 99; 100; 101; 102]].
+Proof. exact split_str_empty_shipped_refuted. Qed.
+Print Assumptions C19_split_empty_separator_shipped_refuted.
+
 (** the string-separator loop as shipped in 704fd0b: trailing separator dropped, exception on overlapping matches *)
 Theorem C19_split_str_shipped_refuted :
   split_str_shipped [44] [97; 44] npos = Some [[97; 44]] /\ split_str [44] [97; 44] npos = [[97]; []] /\
@@ -78,10 +94,11 @@ Theorem C19_split_str_shipped_refuted :
 Proof. exact split_str_shipped_refuted. Qed.
 Print Assumptions C19_split_str_shipped_refuted.
 
-(** ** join_quoted / split_quoted: for every vector of strings, distinct separator / quote / escape,
-    quote and escape not one of the letters n, r, t that name the control-character escapes *)
+(** ** join_quoted / split_quoted: for every vector of strings; the quote differs from separator and escape
+    (separator = escape is fine), quote and escape are not one of the letters n, r, t that name the
+    control-character escapes (escape + 'n' cannot mean both; see docs/audit/C19.md) *)
 Theorem C19_split_join_quoted : forall v sep quote escape,
-  sep <> quote -> sep <> escape -> quote <> escape ->
+  sep <> quote -> quote <> escape ->
   quote <> 110 /\ quote <> 114 /\ quote <> 116 -> escape <> 110 /\ escape <> 114 /\ escape <> 116 ->
   split_quoted (join_quoted v sep quote escape) sep quote escape = Some v.
 Proof. exact split_join_quoted. Qed.
